@@ -229,6 +229,10 @@ class OrderedMultiDict(dict, MutableMappingSequence):
         # keys, so hand the Mapping mix-in its items instead.
         if args and isinstance(args[0], OrderedMultiDict):
             args = (list(args[0].items()),) + tuple(args[1:])
+        elif args and isinstance(args[0], ItemsView):
+            # A view changes while the pairs are assigned if it is a view
+            # of this very container: read it first.
+            args = (list(args[0]),) + tuple(args[1:])
         return abc.MutableMapping.update(self, *args, **kwargs)
 
     def keys(self):
